@@ -8,7 +8,7 @@ CONSTANTS
   MaxTag = 0
   M = 16
   InitEp = {0}
-  MaxEp = 8
+  MaxEp = 6
   MaxOps = 2
   MaxDepth = 3
   ExpAge = 3
